@@ -13,6 +13,27 @@ pub fn case_text(case: &Case) -> Option<&str> {
     case.get("text").and_then(|t| t.as_str())
 }
 
+/// kind "flat": one lexeme repeated n times (built here, the case stays small)
+pub fn flat_text(case: &Case) -> Option<String> {
+    if case.get("kind").and_then(|k| k.as_str()) != Some("flat") {
+        return None;
+    }
+    let lex = case.get("lexeme")?.as_str()?;
+    let sep = case.get("sep").and_then(|s| s.as_str()).unwrap_or(" ");
+    let n = case.get("n").and_then(|n| n.as_u64()).unwrap_or(1000).min(400_000) as usize;
+    let mut s = String::with_capacity((lex.len() + sep.len()) * n);
+    for _ in 0..n {
+        s.push_str(lex);
+        s.push_str(sep);
+    }
+    Some(s)
+}
+
+/// runs `f` on a thread with a 512 KiB stack (a text without any nesting needs no more, however long)
+pub fn on_small_stack<T: Send + 'static>(f: impl FnOnce() -> T + Send + 'static) -> T {
+    std::thread::Builder::new().stack_size(512 * 1024).spawn(f).expect("spawn small-stack thread").join().expect("small-stack thread")
+}
+
 fn join(tokens: &[&str], sep: &str) -> String {
     tokens.join(sep)
 }
@@ -375,6 +396,34 @@ pub fn families(ctx: &Ctx, c02: bool) -> Vec<Family> {
                 }
             }
         }));
+        // one lexeme repeated 150000 times, for every lexeme that opens no bracket and chains no block:
+        // the nesting depth of such a text is zero however long it is, so it is parsed on a thread with a
+        // small stack (kind "flat": 512 KiB) - stack use that grows with the length of a flat text overflows
+        fams.push(
+            Family::new("flat-repetition-small-stack", 1, move |_c, _rng, emit| {
+                for (class, lex) in tok::alphabet() {
+                    if class == "punct" && ["[", "{", "(", "<"].contains(&lex.as_str()) {
+                        continue;
+                    }
+                    // keywords after which the parser reads a nested statement (or block, assumed open when
+                    // the `{` is missing): repeating them IS nesting as far as the parser is concerned
+                    if ["let", "if", "foreach", "in", "then", "else", "defset", "!add", "!cond", "!foreach", "!cast"].contains(&lex.as_str()) {
+                        continue;
+                    }
+                    for sep in ["", " ", "\n"] {
+                        if !emit(serde_json::json!({"kind": "flat", "lexeme": lex, "sep": sep, "n": 150_000})) {
+                            return;
+                        }
+                    }
+                }
+                for lex in ["/*", "/*/", "*/", "/* a */", "//", "#ifdef X\n#endif", "def a;", "class A { int x; }", "\"s\"", "$", "0x", "[{ c }]"] {
+                    if !emit(serde_json::json!({"kind": "flat", "lexeme": lex, "sep": "\n", "n": 150_000})) {
+                        return;
+                    }
+                }
+            })
+            .exhaustive(),
+        );
         fams.push(Family::new("repeated-token", tier.pick(16, 64), move |_c, rng, emit| {
             for _ in 0..8 {
                 if !emit(text_case(repeated(rng, 10_000))) {
